@@ -83,6 +83,12 @@ impl From<Amount> for AttoTokens {
     }
 }
 
+/// Whether the string consists of ASCII decimal digits only (the underlying integer parser
+/// would also accept radix prefixes such as `0x` and `_` separators).
+fn is_decimal(s: &str) -> bool {
+    s.bytes().all(|b| b.is_ascii_digit())
+}
+
 impl FromStr for AttoTokens {
     type Err = EvmError;
 
@@ -91,6 +97,7 @@ impl FromStr for AttoTokens {
         let converted_units = {
             let units = itr
                 .next()
+                .filter(|s| is_decimal(s))
                 .and_then(|s| s.parse::<Amount>().ok())
                 .ok_or_else(|| {
                     EvmError::FailedToParseAttoToken("Can't parse token units".to_string())
@@ -107,6 +114,11 @@ impl FromStr for AttoTokens {
             if remainder_str.is_empty() {
                 Amount::ZERO
             } else {
+                if !is_decimal(remainder_str) {
+                    return Err(EvmError::FailedToParseAttoToken(
+                        "Can't parse token remainder".to_string(),
+                    ));
+                }
                 let parsed_remainder = remainder_str.parse::<Amount>().map_err(|_| {
                     EvmError::FailedToParseAttoToken("Can't parse token remainder".to_string())
                 })?;
